@@ -305,6 +305,8 @@ def _iff_cfgs(tier):
         if tier == "quick" and (nf, ns) != (2, 2) and var["K"] == "matrix":
             continue
         out.append(dict(var, nf=nf, ns=ns, ub="fin", W="none"))
+    # matrix adaptation with a scalar baseline as the estimator stores it (shape (1,))
+    out.append(dict(K="matrix", baseline="array1", lb="pos", nf=2, ns=2, ub="fin", W="none"))
     return out
 
 
